@@ -270,6 +270,13 @@ def mk_sendError(ctx, aspects, on_abort=None):
     return h_sendError
 
 
+def not_interleaved(ex, st, fr):
+    """RFC 8446 s5.1 for the record at hand: TLS 1.3 and not a handshake record => no handshake bytes are buffered"""
+    return z3.Implies(z3.And(F(ev(ex, st, fr, 'self.version > (3, 3)')),
+                             F(ev(ex, st, fr, 'recordHeader.type != ContentType.handshake'))),
+                      F(ev(ex, st, fr, 'not self._defragmenter.buffers[ContentType.handshake]')))
+
+
 def mk_hooks(ctx, aspects=(), parser_exc=(), transport_exc=()):
     """hooks shared by the _getMsg tasks.  `aspects`: which obligation families the hooks pose;
     `parser_exc`: classes every parse()/Parser.get() may raise; `transport_exc`: classes every
@@ -279,6 +286,7 @@ def mk_hooks(ctx, aspects=(), parser_exc=(), transport_exc=()):
         # facts about the connection when the heartbeat record is taken up (the sends below may assign any
         # field as far as the frame scan can tell)
         st.ghost['hb_dispatch'] = TRUE()          # key present <=> the path is inside the heartbeat branch
+        st.ghost['interleave_ok_at_dispatch'] = VBool(not_interleaved(ex, st, fr))
         st.ghost['hb_supported_at_dispatch'] = VBool(F(ev(ex, st, fr, 'bool(self.heartbeat_supported)')))
         st.ghost['hb_can_receive_at_dispatch'] = VBool(F(ev(ex, st, fr, 'bool(self.heartbeat_can_receive)')))
 
@@ -383,7 +391,8 @@ def mk_hooks(ctx, aspects=(), parser_exc=(), transport_exc=()):
                 F(ev(ex, st, fr, 'bool(self.session)')),
                 F(ev(ex, st, fr, '(bool(self._client) and subType == HandshakeType.hello_request) or '
                                  '((not self._client) and subType == HandshakeType.client_hello)'))))
-        if kind == 'heartbeat-response' and 'heartbeat' in aspects:
+        if 'heartbeat' in aspects and 'hb_dispatch' in st.ghost:
+            # whatever is sent from inside the heartbeat branch must be the response built from the request
             oblige(ex, st, 'heartbeat:the-response-sent-is-create_response-of-the-request',
                    same(ctx.response_of.get(ctx.tid(m)), st.ghost.get('hb_req')), ctx)
         if kind in ('other', 'alert') and 'gate' in aspects:
@@ -471,10 +480,7 @@ def gate_task(exp_is_tuple, sec_is_tuple):
         oblige(ex, st, tag + ':message-class-matches-record-content-type',
                ev(ex, st, fr, 'recordHeader.type == ContentType.%s' % ct) if ct else False, ctx)
         # RFC 8446 s5.1: no other record type while a handshake message is partially buffered
-        oblige(ex, st, tag + ':tls13-not-interleaved-with-a-partial-handshake-message',
-               z3.Implies(z3.And(F(ev(ex, st, fr, 'self.version > (3, 3)')),
-                                 F(ev(ex, st, fr, 'recordHeader.type != ContentType.handshake'))),
-                          F(ev(ex, st, fr, 'not self._defragmenter.buffers[ContentType.handshake]'))), ctx)
+        oblige(ex, st, tag + ':tls13-not-interleaved-with-a-partial-handshake-message', not_interleaved(ex, st, fr), ctx)
         if cls in HS_CLASS:
             oblige(ex, st, tag + ':handshake-type-is-one-of-secondaryType', ev(ex, st, fr, 'subType in secondaryType'), ctx)
             oblige(ex, st, tag + ':message-class-matches-handshake-type',
@@ -521,6 +527,14 @@ def gate_task(exp_is_tuple, sec_is_tuple):
         oblige(ex, st, 'skip#%d:record-dropped-only-for-an-enumerated-reason' % k, z3.Or(r1, r2, r3, r4), ctx)
         oblige(ex, st, 'skip#%d:tls13-ccs-dropped-only-in-compat-mode-during-handshake-with-payload-01' % k,
                z3.Implies(z3.And(t13, F(ev(ex, st, fr, 'recordHeader.type == ContentType.change_cipher_spec'))), r1), ctx)
+        # RFC 8446 s5.1: "if a handshake message is split over two or more records, there MUST NOT be any other
+        # records between them" -- also for records that are consumed here rather than returned (the compatibility
+        # CCS is the one record the RFC says to drop "at any time", s5)
+        # (inside the heartbeat branch the fact is taken when the record is taken up: the response send may
+        #  assign any field, including the version)
+        fact = truthy(st.ghost['interleave_ok_at_dispatch']) if 'hb_dispatch' in st.ghost else not_interleaved(ex, st, fr)
+        oblige(ex, st, 'skip#%d:tls13-no-other-record-consumed-while-a-handshake-message-is-partially-buffered' % k,
+               z3.Or(r1, fact), ctx)
 
     spec = M2Spec(hooks=mk_hooks(ctx, aspects=('gate',)), pure=PURE, props_as_fields=PROPS_AS_FIELDS,
                   on_yield=on_yield, on_continue=on_continue)
@@ -689,7 +703,7 @@ def malformed_task():
 
     def check(api):
         mapping_check(ctx, api, EXC_ALERT, SWALLOW_HEARTBEAT | SWALLOW_CLOSE_REPLY | SWALLOW_HB_SEND,
-                      PARSER_EXC + TRANSPORT_EXC)
+                      PARSER_EXC + [c for c in TRANSPORT_EXC if c not in PARSER_EXC])
         # the three arms are the only places where an exception becomes an alert
         arms = sorted(set(a for (_, _, a) in ctx.handled), key=str)
         api.oblige(api.entry, 'except-arms-send-only-illegal_parameter/bad_certificate/decode_error',
@@ -838,3 +852,769 @@ def heartbeat_task():
 heartbeat_task()
 REG.note('C16', 'trusted', ASSUME_GETMSG + '; Heartbeat.create_response echoes the payload (M1 contract on '
          'messages.Heartbeat, not in this module)')
+
+
+# ----------------------------------------------------------------------------------------------
+# 6. _getNextRecordFromSocket (C08, C02): record-layer errors -> alert, returned records are well-formed
+
+RECORD_EXC = [c for c, _ in RECORD_EXC_ALERT]
+
+
+def record_socket_task():
+    ctx = Ctx()
+
+    def h_recvRecord(ex, recv, args, kwargs, st, fr, node):
+        r = fresh_opaque('recv_record')
+        st.events.append(('recvRecord', [recv], r))
+        st.ghost['recv_result'] = r
+        st.ghost['recv_on'] = recv
+        ex.havoc_call('recvRecord', st)
+        materialise(ex, st, fr)
+        return [Outcome('normal', st, r)] + inject(ctx, st, RECORD_EXC + TRANSPORT_EXC + [DecodeError], 'recvRecord')
+
+    def h_remaining(ex, recv, args, kwargs, st, fr, node):
+        r = fresh_opaque('remaining')
+        ctx.created[ctx.tid(r)] = ('getRemainingLength', [recv])
+        st.ghost['remaining'] = r
+        st.ghost['remaining_of'] = recv
+        return [Outcome('normal', st, r)]
+
+    def on_abort(ex, st, fr, node, d, k):
+        # RFC 5246 s6.2.1: an unknown record type / a zero-length non-application_data fragment is answered with
+        # unexpected_message
+        oblige(ex, st, 'abort#%d:alert-is-unexpected_message' % k, d == AlertDescription.unexpected_message, ctx)
+        rem = st.ghost.get('remaining')
+        empty = z3.And(F(ev(ex, st, fr, 'header.type != ContentType.application_data')),
+                       eq_op(rem, VInt(0)).t if rem is not None else z3.BoolVal(False))
+        unknown = F(ev(ex, st, fr, 'header.type not in (20, 21, 22, 23, 24)'))
+        oblige(ex, st, 'abort#%d:only-for-an-empty-non-application-record-or-an-unknown-content-type' % k,
+               z3.Or(empty, unknown), ctx)
+
+    def on_yield(ex, val, st, fr, ynode):
+        ctx.yields += 1
+        tag = 'return#%d' % ctx.yields
+        rec = st.ghost.get('recv_result')
+        ok = isinstance(val, VTuple) and len(val.items) == 2 and rec is not None
+        oblige(ex, st, tag + ':is-the-(header,parser)-pair-recvRecord-produced',
+               z3.And(same(val.items[0], item(rec, 0)), same(val.items[1], item(rec, 1))) if ok else False, ctx)
+        oblige(ex, st, tag + ':record-came-from-this-connections-record-layer',
+               same(st.ghost.get('recv_on'), val_of(ex, api_entry['st'], fr, 'self._recordLayer')), ctx)
+        # RFC 5246 s6.2.1 / RFC 8446 s5.1: the five assigned content types (20..24, RFC 6520 adds 24)
+        oblige(ex, st, tag + ':content-type-is-an-assigned-one', ev(ex, st, fr, 'header.type in (20, 21, 22, 23, 24)'), ctx)
+        rem = st.ghost.get('remaining')
+        nonempty = z3.And(same(st.ghost.get('remaining_of'), st.env.get('parser')),
+                          z3.Not(eq_op(rem, VInt(0)).t)) if rem is not None else z3.BoolVal(False)
+        oblige(ex, st, tag + ':zero-length-fragment-only-for-application_data',
+               z3.Implies(F(ev(ex, st, fr, 'header.type != ContentType.application_data')), nonempty), ctx)
+
+    api_entry = {}
+
+    def setup(ex, st, fr):
+        entry_setup(ctx)(ex, st, fr)
+        api_entry['st'] = st.fork()
+
+    hooks = {'recvRecord': h_recvRecord, 'getRemainingLength': h_remaining,
+             '_sendError': mk_sendError(ctx, (), on_abort)}
+    spec = M2Spec(hooks=hooks, pure=PURE, props_as_fields=PROPS_AS_FIELDS, on_yield=on_yield)
+
+    def check(api):
+        api.oblige(api.entry, 'has-return-site', ctx.yields >= 1)
+        mapping_check(ctx, api, RECORD_EXC_ALERT, set(), RECORD_EXC + TRANSPORT_EXC + [DecodeError])
+        arms = set(a for (_, _, a) in ctx.handled)
+        api.oblige(api.entry, 'except-arms-send-only-the-five-record-alerts',
+                   arms <= set(n for _, n in RECORD_EXC_ALERT))
+        own = [o.val.cls.__name__ for o in api.raise_exits()
+               if not str(getattr(o.val, 'origin', '')).startswith('inject:') and o.val.cls is not NoReturn]
+        api.oblige(api.entry, 'own-raises-are-TLSLocalAlert-only', not own)
+
+    return m2task('_getNextRecordFromSocket/errors-and-wellformedness', ('C08', 'C02'), TRL + '_getNextRecordFromSocket',
+                  spec, check=check, setup=setup, opts=OPTS,
+                  doc='each record-layer exception is answered with its RFC alert (five arms), everything else '
+                      'propagates; a returned record is the one recvRecord produced, has an assigned content type and '
+                      'is non-empty unless application_data')
+
+
+record_socket_task()
+REG.note('C02', 'trusted', 'M2 _getNextRecordFromSocket: RecordLayer.recvRecord is an opaque generator that returns an '
+         'arbitrary (header, parser) pair or raises one of TLSUnexpectedMessage, TLSRecordOverflow, '
+         'TLSIllegalParameterException, TLSDecryptionFailed, TLSBadRecordMAC, OSError, TLSAbruptCloseError, '
+         'TLSLocalAlert, DecodeError or a foreign exception (its own contracts: contracts/recordlayer.py)')
+
+
+# ----------------------------------------------------------------------------------------------
+# 7. _getNextRecord (C02 early-data flag, C14 framing, C06): defragmentation loop
+
+def next_record_task():
+    ctx = Ctx()
+    box = {}
+
+    def h_get_message(ex, recv, args, kwargs, st, fr, node):
+        r = fresh_opaque('defrag_msg')
+        st.events.append(('get_message', [recv], r))
+        ctx.created[ctx.tid(r)] = ('get_message', [recv])
+        oblige(ex, st, 'defragmenter:get_message-on-the-connections-defragmenter',
+               same(recv, val_of(ex, st, fr, 'self._defragmenter')), ctx)
+        return [Outcome('normal', st, r)]
+
+    def h_create(ex, recv, args, kwargs, st, fr, node):
+        r = fresh_opaque('hdr')
+        ctx.created[ctx.tid(r)] = (cls_name(ctx, recv), list(args))
+        return [Outcome('normal', st, r)]
+
+    def h_from_socket(ex, recv, args, kwargs, st, fr, node):
+        k = ctx.ordinal('socket-read')
+        # C14: buffered complete messages are handed out before the socket is touched again
+        oblige(ex, st, 'socket-read#%d:only-after-the-defragmenter-has-no-complete-message' % k,
+               z3.And(F(ev(ex, st, fr, 'ret is None')),
+                      z3.BoolVal(ctx.created.get(ctx.tid(st.env.get('ret')), ('',))[0] == 'get_message')), ctx)
+        st.ghost['edo_before_read'] = val_of(ex, st, fr, 'self._recordLayer.early_data_ok')
+        st.ghost['read_calls'] = VInt(to_int(st.ghost.get('read_calls')) + 1)
+        r = fresh_opaque('socket_record')
+        st.events.append(('_getNextRecordFromSocket', [], r))
+        ex.havoc_call('_getNextRecordFromSocket', st)
+        materialise(ex, st, fr)
+        st.ghost['socket_record'] = r
+        # RecordLayer.recvRecord clears early_data_ok for every record it accepts (recordlayer.py): after the
+        # call the flag is an arbitrary new value
+        rl = val_of(ex, st, fr, 'self._recordLayer')
+        st.heap[('o', ctx.tid(rl), 'early_data_ok')] = fresh_opaque('early_data_ok_after_read')
+        # contract of _getNextRecordFromSocket (task above): assigned content type
+        h = item(r, 0)
+        st.assume(z3.Or([eq_op(attr(h, 'type'), VInt(c)).t for c in (20, 21, 22, 23, 24)]))
+        return [Outcome('normal', st, r)]
+
+    def h_add_data(ex, recv, args, kwargs, st, fr, node):
+        k = ctx.ordinal('add_data')
+        st.events.append(('add_data', [recv] + list(args), None))
+        st.ghost['buffered'] = TRUE()
+        rec = st.ghost.get('socket_record')
+        tag = 'buffer#%d' % k
+        oblige(ex, st, tag + ':into-the-connections-defragmenter', same(recv, val_of(ex, st, fr, 'self._defragmenter')), ctx)
+        oblige(ex, st, tag + ':under-the-records-own-content-type',
+               same(args[0], attr(item(rec, 0), 'type')) if rec is not None and len(args) == 2 else False, ctx)
+        oblige(ex, st, tag + ':exactly-the-records-payload',
+               same(args[1], attr(item(rec, 1), 'bytes')) if rec is not None and len(args) == 2 else False, ctx)
+        # Defragmenter.add_data raises ValueError for a type that was not registered (TLSRecordLayer.__init__
+        # registers change_cipher_spec, alert, handshake -- AST task defragmenter-registration)
+        oblige(ex, st, tag + ':content-type-is-registered-with-the-defragmenter (no ValueError)',
+               ev(ex, st, fr, 'header.type in (ContentType.change_cipher_spec, ContentType.alert, ContentType.handshake)'), ctx)
+        # application data and heartbeat are not message-structured (RFC 5246 s6.2.1, RFC 6520 s3)
+        oblige(ex, st, tag + ':never-application_data-or-heartbeat',
+               ev(ex, st, fr, 'header.type != ContentType.application_data and header.type != ContentType.heartbeat'), ctx)
+        return [Outcome('normal', st, VNone())]
+
+    def on_store(ex, obj, val, st, fr, node):
+        k = ctx.ordinal('edo-store')
+        tag = 'early_data_ok-store#%d' % k
+        # RFC 8446 s4.2.10 / App. D.4: the plaintext compatibility CCS "doesn't change the status of undecryptable
+        # records": after it the flag has the value it had just before this record was read
+        oblige(ex, st, tag + ':restores-the-value-read-just-before-this-record-was-received',
+               same(val, st.ghost.get('edo_before_read')), ctx)
+        oblige(ex, st, tag + ':only-for-a-tls13-change_cipher_spec-record',
+               z3.And(F(ev(ex, st, fr, 'self.version > (3, 3)')),
+                      F(ev(ex, st, fr, 'header.type == ContentType.change_cipher_spec'))), ctx)
+        oblige(ex, st, tag + ':on-the-connections-record-layer', same(obj, val_of(ex, st, fr, 'self._recordLayer')), ctx)
+        oblige(ex, st, tag + ':the-record-is-the-one-just-read',
+               same(st.env.get('header'), item(st.ghost.get('socket_record'), 0)) if st.ghost.get('socket_record') is not None
+               else False, ctx)
+        st.ghost['edo_restored'] = TRUE()
+
+    def on_yield(ex, val, st, fr, ynode):
+        ctx.yields += 1
+        k = ctx.yields
+        if not (isinstance(val, VTuple) and len(val.items) == 2):
+            oblige(ex, st, 'yield#%d:is-a-(header,parser)-pair' % k, False, ctx)
+            return
+        h, p = val.items
+        hc = ctx.created.get(ctx.tid(h))
+        if hc is not None:
+            # a message taken out of the defragmenter
+            tag = 'yield#%d[defragmented]' % k
+            ret = st.env.get('ret')
+            pc_ = ctx.cls_of.get(ctx.tid(p))
+            oblige(ex, st, tag + ':message-came-from-get_message',
+                   z3.BoolVal(ctx.created.get(ctx.tid(ret), ('',))[0] == 'get_message'), ctx)
+            oblige(ex, st, tag + ':header-carries-the-message-type-and-the-connection-version',
+                   z3.And(z3.BoolVal(hc[0] == 'RecordHeader3' and len(hc[1]) == 3),
+                          same(hc[1][0], val_of(ex, st, fr, 'self.version')) if len(hc[1]) == 3 else z3.BoolVal(False),
+                          same(hc[1][1], item(ret, 0)) if len(hc[1]) == 3 and ret is not None else z3.BoolVal(False)), ctx)
+            oblige(ex, st, tag + ':parser-is-over-exactly-the-message-bytes',
+                   z3.And(z3.BoolVal(pc_ is not None and pc_[0] == 'Parser' and len(pc_[1]) == 1),
+                          same(pc_[1][0], item(ret, 1)) if pc_ and len(pc_[1]) == 1 and ret is not None
+                          else z3.BoolVal(False)), ctx)
+            oblige(ex, st, tag + ':before-any-socket-read-of-this-iteration',
+                   to_int(st.ghost.get('read_calls')) == 0, ctx)
+        else:
+            tag = 'yield#%d[pass-through]' % k
+            rec = st.ghost.get('socket_record')
+            oblige(ex, st, tag + ':is-the-record-just-read',
+                   z3.And(same(h, item(rec, 0)), same(p, item(rec, 1))) if rec is not None else False, ctx)
+            # C14/C06: only record kinds that are not made of messages bypass the defragmenter
+            oblige(ex, st, tag + ':only-application_data,tls13-ccs,heartbeat-or-sslv2-bypass-the-defragmenter',
+                   z3.Or(F(ev(ex, st, fr, 'header.type == ContentType.application_data')),
+                         z3.And(F(ev(ex, st, fr, 'self.version > (3, 3)')),
+                                F(ev(ex, st, fr, 'header.type == ContentType.change_cipher_spec'))),
+                         F(ev(ex, st, fr, 'header.type == ContentType.heartbeat')),
+                         F(ev(ex, st, fr, 'bool(header.ssl2)'))), ctx)
+            oblige(ex, st, tag + ':not-also-buffered', z3.Not(truthy(st.ghost.get('buffered', FALSE()))), ctx)
+            # the flag is restored for every TLS 1.3 CCS that is handed on (not only on some paths)
+            oblige(ex, st, tag + ':tls13-ccs-handed-on-with-early_data_ok-restored',
+                   z3.Implies(z3.And(F(ev(ex, st, fr, 'self.version > (3, 3)')),
+                                     F(ev(ex, st, fr, 'header.type == ContentType.change_cipher_spec'))),
+                              truthy(st.ghost.get('edo_restored', FALSE()))), ctx)
+
+    def setup(ex, st, fr):
+        entry_setup(ctx)(ex, st, fr)
+        st.ghost['read_calls'] = VInt(0)
+        # the flag is a mutable attribute of the record layer object: give it an explicit heap cell so that the
+        # loop cut and the callee models havoc it (M2 reads attributes of opaque objects as pure terms otherwise)
+        rl = val_of(ex, st, fr, 'self._recordLayer')
+        st.heap[('o', ctx.tid(rl), 'early_data_ok')] = fresh_opaque('early_data_ok_at_entry')
+
+    hooks = {'get_message': h_get_message, 'create': h_create, '_getNextRecordFromSocket': h_from_socket,
+             'add_data': h_add_data, 'RecordHeader3': ctor_hook(ctx, 'RecordHeader3'), 'Parser': ctor_hook(ctx, 'Parser')}
+    spec = M2Spec(hooks=hooks, pure=PURE, props_as_fields=PROPS_AS_FIELDS, on_yield=on_yield,
+                  on_store={'early_data_ok': on_store})
+    spec.loop_ghost_havoc = {'read_calls', 'buffered', 'edo_restored', 'socket_record', 'edo_before_read'}
+
+    def check(api):
+        api.oblige(api.entry, 'has-defragmented-and-pass-through-yields', ctx.yields >= 4)
+        api.oblige(api.entry, 'has-socket-read-site', ctx.counts.get('socket-read', 0) >= 1)
+        api.oblige(api.entry, 'has-buffer-site', ctx.counts.get('add_data', 0) >= 1)
+        api.oblige(api.entry, 'has-early_data_ok-store-site', ctx.counts.get('edo-store', 0) >= 1)
+        for o in api.normal_exits():
+            api.unreachable(o.st, 'never-ends-without-a-record (infinite loop, leaves only by yield or exception)')
+
+    return m2task('_getNextRecord/defragmentation', ('C02', 'C14', 'C06'), TRL + '_getNextRecord', spec, check=check,
+                  setup=setup, opts=OPTS,
+                  doc='buffered messages first, then one socket record; handshake/alert/(<=1.2 CCS) payloads always go '
+                      'through the defragmenter under their own type, only application_data / TLS 1.3 CCS / heartbeat / '
+                      'SSLv2 records are handed on directly; early_data_ok is restored after a TLS 1.3 CCS to the '
+                      'value read just before that record was received')
+
+
+next_record_task()
+REG.note('C14', 'trusted', 'M2 _getNextRecord: Defragmenter.get_message/add_data by their M1 contracts '
+         '(contracts/defragmenter.py); _getNextRecordFromSocket by its task (assigned content type); loops cut with '
+         'the trivial invariant (arbitrary iteration)')
+
+
+# ----------------------------------------------------------------------------------------------
+# 8. C04: transcript on the send side (_sendMsg, _queue_message, _queue_flush)
+
+def send_hooks(ctx):
+    def h_write(ex, recv, args, kwargs, st, fr, node):
+        r = fresh_opaque('serialised')
+        ctx.writes[ctx.tid(r)] = recv
+        st.events.append(('write', [recv], r))
+        return [Outcome('normal', st, r)]
+
+    def h_update(ex, recv, args, kwargs, st, fr, node):
+        k = ctx.ordinal('update')
+        st.events.append(('update', [recv] + list(args), None))
+        st.ghost['hash_updates'] = VInt(to_int(st.ghost.get('hash_updates')) + 1)
+        st.ghost['hashed_bytes'] = args[0] if args else VNone()
+        tag = 'transcript-update#%d' % k
+        oblige(ex, st, tag + ':on-the-connection-transcript', same(recv, val_of(ex, st, fr, 'self._handshake_hash')), ctx)
+        w = ctx.writes.get(ctx.tid(args[0])) if args else None
+        oblige(ex, st, tag + ':hashes-exactly-the-serialisation-of-the-message-being-sent',
+               same(w, st.env.get('msg')), ctx)
+        # RFC 5246 s7.4.9 / RFC 8446 s4.4.1: only handshake messages are part of the transcript
+        oblige(ex, st, tag + ':only-for-a-handshake-message', ev(ex, st, fr, 'msg.contentType == ContentType.handshake'), ctx)
+        return [Outcome('normal', st, VNone())]
+    return {'write': h_write, 'update': h_update, 'Message': ctor_hook(ctx, 'Message')}
+
+
+def sendmsg_task():
+    ctx = Ctx()
+
+    def h_through(ex, recv, args, kwargs, st, fr, node):
+        k = ctx.ordinal('fragment')
+        tag = 'fragment#%d' % k
+        m = args[0] if args else None
+        hs = z3.And(truthy(st.env['update_hashes']), F(ev(ex, st, fr, 'msg.contentType == ContentType.handshake')))
+        n = to_int(st.ghost.get('hash_updates'))
+        # nothing of a handshake message reaches the wire before the message is in the transcript, and a
+        # message is hashed once however many fragments it needs
+        oblige(ex, st, tag + ':handshake-message-hashed-exactly-once-before-any-of-it-is-sent', z3.Implies(hs, n == 1), ctx)
+        oblige(ex, st, tag + ':otherwise-the-transcript-is-untouched', z3.Implies(z3.Not(hs), n == 0), ctx)
+        c = ctx.cls_of.get(ctx.tid(m))
+        if c is not None and c[0] == 'Message':
+            oblige(ex, st, tag + ':fragment-keeps-the-content-type-of-the-message',
+                   same(c[1][0], attr(st.env['msg'], 'contentType')) if len(c[1]) == 2 else False, ctx)
+        st.events.append(('_sendMsgThroughSocket', args, None))
+        ex.havoc_call('_sendMsgThroughSocket', st)
+        materialise(ex, st, fr)
+        return [Outcome('normal', st, VNone())]
+
+    hooks = send_hooks(ctx)
+    hooks['_sendMsgThroughSocket'] = h_through
+    spec = M2Spec(hooks=hooks, pure=PURE | {'isCBCMode'}, props_as_fields=PROPS_AS_FIELDS)
+
+    def check(api):
+        ns = api.normal_exits()
+        api.oblige(api.entry, 'has-normal-exit', len(ns) >= 1)
+        api.oblige(api.entry, 'has-fragment-sites', ctx.counts.get('fragment', 0) >= 3)
+        api.oblige(api.entry, 'has-update-site', ctx.counts.get('update', 0) >= 1)
+        for k, o in enumerate(ns, 1):
+            st = o.st
+            hs = z3.And(truthy(st.env['update_hashes']), F(ev(api.ex, st, api.fr, 'msg.contentType == ContentType.handshake')))
+            oblige(api.ex, st, 'exit#%d:a-sent-handshake-message-is-in-the-transcript-exactly-once' % k,
+                   z3.Implies(hs, to_int(st.ghost.get('hash_updates')) == 1), ctx)
+            oblige(api.ex, st, 'exit#%d:update_hashes=False-or-non-handshake-leaves-the-transcript-alone' % k,
+                   z3.Implies(z3.Not(hs), to_int(st.ghost.get('hash_updates')) == 0), ctx)
+
+    return m2task('_sendMsg/transcript', ('C04',), TRL + '_sendMsg', spec, check=check, setup=entry_setup(ctx), opts=OPTS,
+                  doc='a handshake message sent with update_hashes is fed to the transcript (its own serialisation, '
+                      'once) before its first fragment is sent; nothing else touches the transcript')
+
+
+def queue_message_task():
+    ctx = Ctx()
+    box = {}
+
+    def setup(ex, st, fr):
+        entry_setup(ctx)(ex, st, fr)
+        box['buf0'] = val_of(ex, st, fr, 'self._buffer')
+        box['bct0'] = val_of(ex, st, fr, 'self._buffer_content_type')
+
+    spec = M2Spec(hooks=send_hooks(ctx), pure=PURE, props_as_fields=PROPS_AS_FIELDS)
+
+    def check(api):
+        ex, fr = api.ex, api.fr
+        ns = api.normal_exits()
+        api.oblige(api.entry, 'has-normal-exit', len(ns) >= 1)
+        for k, o in enumerate(ns, 1):
+            st = o.st
+            hs = F(ev(ex, st, fr, 'msg.contentType == ContentType.handshake'))
+            n = to_int(st.ghost.get('hash_updates'))
+            oblige(ex, st, 'exit#%d:queued-handshake-message-is-hashed-exactly-once-at-queue-time' % k, z3.Implies(hs, n == 1), ctx)
+            oblige(ex, st, 'exit#%d:non-handshake-message-not-hashed' % k, z3.Implies(z3.Not(hs), n == 0), ctx)
+            ser = st.env.get('serialised_msg')
+            oblige(ex, st, 'exit#%d:queued-bytes-are-the-serialisation-of-msg' % k,
+                   same(ctx.writes.get(ctx.tid(ser)), st.env.get('msg')), ctx)
+            oblige(ex, st, 'exit#%d:hashed-bytes-are-the-queued-bytes' % k,
+                   z3.Implies(hs, same(st.ghost.get('hashed_bytes'), ser)), ctx)
+            add = z3.Function('v_binop_Add', smt.Val, smt.Val, smt.Val)
+            oblige(ex, st, 'exit#%d:buffer-is-the-old-buffer-plus-these-bytes' % k,
+                   same(val_of(ex, st, fr, 'self._buffer'), VOpaque(add(to_val(box['buf0']), to_val(ser)))) if ser is not None
+                   else False, ctx)
+            oblige(ex, st, 'exit#%d:buffer-holds-a-single-content-type' % k,
+                   F(ev(ex, st, fr, 'self._buffer_content_type == msg.contentType')), ctx)
+        rs = api.raise_exits()
+        for k, o in enumerate(rs, 1):
+            st = o.st
+            oblige(ex, st, 'raise#%d:is-ValueError' % k, o.val.cls is ValueError, ctx)
+            oblige(ex, st, 'raise#%d:only-when-mixing-content-types' % k,
+                   z3.And(z3.Not(to_val(box['bct0']) == to_val(VNone())),
+                          z3.Not(to_val(box['bct0']) == to_val(attr(st.env['msg'], 'contentType')))), ctx)
+            oblige(ex, st, 'raise#%d:leaves-buffer-and-transcript-untouched' % k,
+                   z3.And(to_int(st.ghost.get('hash_updates')) == 0,
+                          same(val_of(ex, st, fr, 'self._buffer'), box['buf0']),
+                          same(val_of(ex, st, fr, 'self._buffer_content_type'), box['bct0'])), ctx)
+
+    return m2task('_queue_message/transcript', ('C04',), TRL + '_queue_message', spec, check=check, setup=setup, opts=OPTS,
+                  doc='a queued handshake message is hashed at queue time (the same bytes that are appended to the '
+                      'coalescing buffer); the buffer never mixes content types')
+
+
+def is_empty_bytes(v):
+    from pyvc.values import VSeq
+    return isinstance(v, VSeq) and v.t.eq(smt.s_empty)
+
+
+def queue_flush_task():
+    ctx = Ctx()
+    box = {}
+
+    def setup(ex, st, fr):
+        entry_setup(ctx)(ex, st, fr)
+        box['buf0'] = val_of(ex, st, fr, 'self._buffer')
+        box['bct0'] = val_of(ex, st, fr, 'self._buffer_content_type')
+
+    def h_sendMsg(ex, recv, args, kwargs, st, fr, node):
+        k = ctx.ordinal('flush-send')
+        m = args[0] if args else None
+        uh = kwargs.get('update_hashes', args[2] if len(args) > 2 else None)
+        # the queued bytes were hashed when they were queued (_queue_message task): hashing them again would put
+        # every coalesced handshake message into the transcript twice
+        oblige(ex, st, 'flush#%d:sends-with-update_hashes=False' % k,
+               z3.Not(truthy(uh)) if uh is not None else False, ctx)
+        c = ctx.cls_of.get(ctx.tid(m))
+        oblige(ex, st, 'flush#%d:sends-the-whole-buffer-under-its-content-type' % k,
+               z3.And(same(c[1][0], box['bct0']), same(c[1][1], box['buf0'])) if c and c[0] == 'Message' and len(c[1]) == 2
+               else False, ctx)
+        ex.havoc_call('_sendMsg', st)
+        st.ghost['flushed'] = TRUE()
+        return [Outcome('normal', st, VNone())]
+
+    def on_store_buf(ex, obj, val, st, fr, node):
+        oblige(ex, st, 'buffer-reset#%d:only-after-the-flush' % ctx.ordinal('reset'),
+               truthy(st.ghost.get('flushed', FALSE())), ctx)
+
+    hooks = send_hooks(ctx)
+    hooks['_sendMsg'] = h_sendMsg
+    spec = M2Spec(hooks=hooks, pure=PURE, props_as_fields=PROPS_AS_FIELDS,
+                  on_store={'_buffer': on_store_buf, '_buffer_content_type': on_store_buf})
+
+    def check(api):
+        ex, fr = api.ex, api.fr
+        ns = api.normal_exits()
+        api.oblige(api.entry, 'has-normal-exit', len(ns) >= 1)
+        api.oblige(api.entry, 'has-flush-send', ctx.counts.get('flush-send', 0) == 1)
+        for k, o in enumerate(ns, 1):
+            st = o.st
+            oblige(ex, st, 'exit#%d:transcript-untouched-by-the-flush' % k, to_int(st.ghost.get('hash_updates')) == 0, ctx)
+            oblige(ex, st, 'exit#%d:buffer-empty-and-untyped-afterwards' % k,
+                   z3.And(F(ev(ex, st, fr, 'self._buffer_content_type is None')),
+                          z3.BoolVal(is_empty_bytes(val_of(ex, st, fr, 'self._buffer')))), ctx)
+
+    return m2task('_queue_flush/transcript', ('C04',), TRL + '_queue_flush', spec, check=check, setup=setup, opts=OPTS,
+                  doc='the flush sends the whole coalescing buffer with update_hashes=False (its bytes were hashed at '
+                      'queue time) and then resets the buffer')
+
+
+sendmsg_task()
+queue_message_task()
+queue_flush_task()
+REG.note('C04', 'trusted', 'M2 send side: msg.write() returns an arbitrary value that identifies the serialisation of '
+         'its receiver (two calls are not assumed equal); HandshakeHashes.update assigns no TLSRecordLayer field; '
+         '_sendMsgThroughSocket may assign any field the frame scan finds')
+REG.note('C04', 'not_built', 'O-transcript-complete is shown per function (receive: _getMsg; send: _sendMsg, '
+         '_queue_message, _queue_flush); that every handshake send in tlsconnection.py goes through one of these three '
+         'is a call-site scan that is not in this module')
+
+
+# ----------------------------------------------------------------------------------------------
+# 9. AST tasks: yield transparency (C14), _getMsg call sites (C06/C08), defragmenter registration (C14)
+
+import os as _os
+
+from pyvc import source as _source
+from pyvc.asttask import AstTask, dotted
+
+GEN_FILES = ('tlsrecordlayer.py', 'recordlayer.py', 'messagesocket.py', 'tlsconnection.py')
+
+
+def _own_nodes(fn):
+    out = []
+
+    def rec(x):
+        for c in ast.iter_child_nodes(x):
+            if isinstance(c, (ast.FunctionDef, ast.AsyncFunctionDef, ast.Lambda, ast.ClassDef)):
+                continue
+            out.append(c)
+            rec(c)
+    rec(fn)
+    return out
+
+
+def generator_names():
+    root = _os.path.join(_source.REPO, 'tlslite')
+    gens = set()
+    for dp, dn, fns in _os.walk(root):
+        for f in fns:
+            if f.endswith('.py'):
+                tree = _source.module_ast(_os.path.join(dp, f))
+                for n in ast.walk(tree):
+                    if isinstance(n, ast.FunctionDef) and any(isinstance(x, (ast.Yield, ast.YieldFrom)) for x in _own_nodes(n)):
+                        gens.add(n.name)
+    return gens
+
+
+def _functions(tree):
+    """(qualified name, FunctionDef) for every function, methods as Class.name"""
+    out = []
+
+    def rec(node, prefix):
+        for c in ast.iter_child_nodes(node):
+            if isinstance(c, ast.ClassDef):
+                rec(c, prefix + c.name + '.')
+            elif isinstance(c, (ast.FunctionDef, ast.AsyncFunctionDef)):
+                out.append((prefix + c.name, c))
+                rec(c, prefix + c.name + '.')
+    rec(tree, '')
+    return out
+
+
+def _is_01(test, tgt):
+    """exactly `<tgt> in (0, 1)`: both values, nothing else"""
+    if not (isinstance(test, ast.Compare) and len(test.ops) == 1 and isinstance(test.ops[0], ast.In)
+            and isinstance(test.left, ast.Name) and isinstance(tgt, ast.Name) and test.left.id == tgt.id
+            and isinstance(test.comparators[0], (ast.Tuple, ast.List))):
+        return False
+    elts = test.comparators[0].elts
+    if not all(isinstance(e, ast.Constant) and type(e.value) is int for e in elts):
+        return False
+    return sorted(e.value for e in elts) == [0, 1]
+
+
+def _is_yield_of(stmt, tgt):
+    return isinstance(stmt, ast.Expr) and isinstance(stmt.value, ast.Yield) and isinstance(stmt.value.value, ast.Name) \
+        and isinstance(tgt, ast.Name) and stmt.value.value.id == tgt.id
+
+
+def loop_idiom(loop):
+    """name of the idiom the loop over a generator call matches exactly, else (None, why)"""
+    tgt, body = loop.target, loop.body
+    if loop.orelse:
+        return None, 'for/else'
+    if len(body) != 1:
+        return None, 'body has %d statements' % len(body)
+    b = body[0]
+    if isinstance(b, ast.Pass):
+        return 'drain', None
+    if _is_yield_of(b, tgt):
+        return 'passthrough', None
+    if isinstance(b, ast.If):
+        if not _is_01(b.test, tgt):
+            return None, 'test is not `%s in (0, 1)`: %s' % (getattr(tgt, 'id', '?'), ast.unparse(b.test))
+        then_yield = len(b.body) == 1 and _is_yield_of(b.body[0], tgt)
+        then_pass = len(b.body) == 1 and isinstance(b.body[0], ast.Pass)
+        if then_yield and not b.orelse:
+            return 'await', None
+        if then_yield and len(b.orelse) == 1 and isinstance(b.orelse[0], ast.Pass):
+            return 'await', None
+        if then_yield and len(b.orelse) == 1 and isinstance(b.orelse[0], ast.Break):
+            return 'await-break', None
+        # blocking wrapper (not a generator itself): swallow 0/1, return the value
+        if then_pass and len(b.orelse) == 1 and isinstance(b.orelse[0], ast.Return) \
+                and isinstance(b.orelse[0].value, ast.Name) and b.orelse[0].value.id == tgt.id:
+            return 'blocking-return', None
+        # 0/1 forwarded; a final value is either consumed by a non-yielding arm that returns, or breaks
+        if then_yield and len(b.orelse) == 1 and isinstance(b.orelse[0], ast.If):
+            e = b.orelse[0]
+            arm = e.body
+            no_yield = not any(isinstance(x, (ast.Yield, ast.YieldFrom)) for s in arm for x in ast.walk(s))
+            if no_yield and arm and isinstance(arm[-1], ast.Return) and len(e.orelse) == 1 \
+                    and isinstance(e.orelse[0], ast.Break):
+                return 'await-dispatch', None
+        return None, 'if-shape: then=%s else=%s' % ([type(x).__name__ for x in b.body], [type(x).__name__ for x in b.orelse])
+    return None, 'body is %s' % type(b).__name__
+
+
+class YieldTransparencyTask(AstTask):
+    """C14: every loop over a generator call forwards exactly the callee's 0/1 results, immediately (no statement
+    between obtaining and yielding), and treats everything else as the final value."""
+
+    def __init__(self, fname):
+        AstTask.__init__(self, 'yield-transparency[%s]' % fname, ('C14',), 'tlslite/%s' % fname,
+                         doc='every `for r in <generator call>` in %s is one of the idioms passthrough / await / '
+                             'await-break / drain (or the two enumerated variants blocking-return, await-dispatch) '
+                             'with the test `r in (0, 1)`' % fname)
+        self.fname = fname
+
+    def run(self, reg, meta):
+        gens = generator_names()
+        path = _os.path.join(_source.REPO, 'tlslite', self.fname)
+        tree = _source.module_ast(path)
+        n = 0
+        counts = {}
+        for qn, fn in _functions(tree):
+            loops = [x for x in _own_nodes(fn) if isinstance(x, ast.For) and isinstance(x.iter, ast.Call)]
+            loops = [x for x in loops if (x.iter.func.attr if isinstance(x.iter.func, ast.Attribute) else
+                                          getattr(x.iter.func, 'id', None)) in gens]
+            loops.sort(key=lambda x: (x.lineno, x.col_offset))
+            for k, lp in enumerate(loops, 1):
+                idiom, why = loop_idiom(lp)
+                n += 1
+                counts[idiom] = counts.get(idiom, 0) + 1
+                callee = lp.iter.func.attr if isinstance(lp.iter.func, ast.Attribute) else lp.iter.func.id
+                self.holds('loop[%s#%d over %s]:forwards-exactly-0/1-immediately' % (qn, k, callee), 'ast-idiom',
+                           idiom is not None, reason='line %d: %s' % (lp.lineno, why),
+                           where='tlslite/%s:%d' % (self.fname, lp.lineno), qual='tlslite/%s:%s' % (self.fname, qn))
+        meta['paths'] = n
+        meta['assumptions'] = ['generator calls are recognised by callee *name* (any function of that name in tlslite '
+                               'that contains yield); idiom counts: %s' % sorted(counts.items(), key=str)]
+        self.holds('has-generator-loops', 'ast-cover', n >= 1, reason='no loop over a generator call found')
+
+
+for _f in GEN_FILES:
+    REG.add_task(YieldTransparencyTask(_f))
+REG.note('C14', 'assumptions', 'yield-transparency: the two non-standard shapes of the pinned tree are enumerated as idioms '
+         'of their own (blocking-return in MessageSocket.recvMessageBlocking: not a generator, swallows 0/1 and returns '
+         'the value; await-dispatch in _handshakeServerAsyncHelper: 0/1 forwarded, None -> finish, else break)')
+
+
+def _const_names(node, cls):
+    """set of attribute names for an expression made of <cls>.<name> and tuples of them; None if not of that form"""
+    if isinstance(node, ast.Attribute) and isinstance(node.value, ast.Name) and node.value.id == cls:
+        return {node.attr}
+    if isinstance(node, ast.Constant) and node.value is None:
+        return set()
+    if isinstance(node, (ast.Tuple, ast.List)):
+        out = set()
+        for e in node.elts:
+            r = _const_names(e, cls)
+            if r is None:
+                return None
+            out |= r
+        return out
+    if isinstance(node, ast.IfExp):                 # a if c else b: either
+        a, b = _const_names(node.body, cls), _const_names(node.orelse, cls)
+        return None if a is None or b is None else a | b
+    return None
+
+
+def _resolve(node, fn, cls):
+    """names an argument can denote: literal, or a local name assigned only literals in the enclosing function"""
+    r = _const_names(node, cls)
+    if r is not None:
+        return r
+    if isinstance(node, ast.Name):
+        vals = [a.value for a in _own_nodes(fn) if isinstance(a, ast.Assign)
+                and any(isinstance(t, ast.Name) and t.id == node.id for t in a.targets)]
+        if not vals:
+            return None
+        out = set()
+        for v in vals:
+            r = _const_names(v, cls)
+            if r is None:
+                return None
+            out |= r
+        return out
+    return None
+
+
+class GetMsgCallSitesTask(AstTask):
+    """preconditions of the _getMsg gate contract, discharged at every call site"""
+
+    def __init__(self):
+        AstTask.__init__(self, 'getmsg-call-sites', ('C06', 'C08'), TRL + '_getMsg',
+                         doc='every _getMsg call names only content types that have a message class '
+                             '(ccs/alert/handshake/application_data) and only handshake types the dispatch knows, so '
+                             'the AssertionError / fall-through exits of _getMsg are unreachable')
+
+    def run(self, reg, meta):
+        root = _os.path.join(_source.REPO, 'tlslite')
+        ok_ct = {'change_cipher_spec', 'alert', 'handshake', 'application_data'}
+        ok_hs = set(HS_CLASS.values())
+        n = 0
+        for f in sorted(_os.listdir(root)):
+            if not f.endswith('.py'):
+                continue
+            tree = _source.module_ast(_os.path.join(root, f))
+            for qn, fn in _functions(tree):
+                calls = [c for c in _own_nodes(fn) if isinstance(c, ast.Call) and isinstance(c.func, ast.Attribute)
+                         and c.func.attr == '_getMsg']
+                calls.sort(key=lambda c: (c.lineno, c.col_offset))
+                for k, c in enumerate(calls, 1):
+                    n += 1
+                    kw = {x.arg: x.value for x in c.keywords}
+                    a0 = c.args[0] if c.args else kw.get('expectedType')
+                    a1 = c.args[1] if len(c.args) > 1 else kw.get('secondaryType')
+                    where = 'tlslite/%s:%d' % (f, c.lineno)
+                    cts = _resolve(a0, fn, 'ContentType') if a0 is not None else None
+                    self.holds('call[%s:%s#%d]:expectedType-names-only-content-types-with-a-message-class' % (f, qn, k),
+                               'ast-callsite', cts is not None and cts <= ok_ct and len(cts) >= 1,
+                               reason='expectedType = %s' % (ast.unparse(a0) if a0 is not None else None), where=where)
+                    hts = _resolve(a1, fn, 'HandshakeType') if a1 is not None else set()
+                    need = cts is not None and 'handshake' in cts
+                    self.holds('call[%s:%s#%d]:secondaryType-names-only-dispatchable-handshake-types' % (f, qn, k),
+                               'ast-callsite', hts is not None and hts <= ok_hs and (len(hts) >= 1 or not need),
+                               reason='secondaryType = %s' % (ast.unparse(a1) if a1 is not None else None), where=where)
+        meta['paths'] = n
+        self.holds('has-call-sites', 'ast-cover', n >= 30, reason='%d call sites' % n)
+
+
+REG.add_task(GetMsgCallSitesTask())
+
+
+class DefragRegistrationTask(AstTask):
+    """what _getNextRecord relies on when it calls add_data: TLSRecordLayer.__init__ registers exactly
+    change_cipher_spec (1 byte), alert (2 bytes, RFC 5246 s7.2) and handshake (1 byte type + 3 byte length,
+    RFC 5246 s7.4) with the defragmenter, in that priority order"""
+
+    def __init__(self):
+        AstTask.__init__(self, 'defragmenter-registration', ('C14', 'C08'), TRL + '__init__',
+                         doc='the connection defragmenter knows exactly CCS/alert/handshake with the RFC framing')
+
+    def run(self, reg, meta):
+        tree = _source.module_ast(_os.path.join(_source.REPO, 'tlslite', 'tlsrecordlayer.py'))
+        init = [fn for qn, fn in _functions(tree) if qn == 'TLSRecordLayer.__init__'][0]
+        regs = []
+        for c in sorted([c for c in _own_nodes(init) if isinstance(c, ast.Call)], key=lambda c: c.lineno):
+            d = dotted(c.func)
+            if d in ('self._defragmenter.add_static_size', 'self._defragmenter.add_dynamic_size'):
+                regs.append((d.split('.')[-1],) + tuple(ast.unparse(a) for a in c.args))
+        want = [('add_static_size', 'ContentType.change_cipher_spec', '1'),
+                ('add_static_size', 'ContentType.alert', '2'),
+                ('add_dynamic_size', 'ContentType.handshake', '1', '3')]
+        self.holds('registers-ccs(1)-alert(2)-handshake(1+3)-in-priority-order', 'ast', regs == want,
+                   reason='found %r' % (regs,))
+        # the defragmenter object is created once: nobody replaces it by an unconfigured one
+        root = _os.path.join(_source.REPO, 'tlslite')
+        stores = []
+        for f in sorted(_os.listdir(root)):
+            if f.endswith('.py'):
+                t = _source.module_ast(_os.path.join(root, f))
+                for qn, fn in _functions(t):
+                    for x in _own_nodes(fn):
+                        if isinstance(x, ast.Attribute) and isinstance(x.ctx, ast.Store) and x.attr == '_defragmenter':
+                            stores.append('%s:%s' % (f, qn))
+        self.holds('_defragmenter-assigned-only-in-TLSRecordLayer.__init__', 'ast',
+                   stores == ['tlsrecordlayer.py:TLSRecordLayer.__init__'], reason='stores: %r' % (stores,))
+
+
+REG.add_task(DefragRegistrationTask())
+
+
+# ----------------------------------------------------------------------------------------------
+# bounded differential runs (specs/getmsg.py): real _getMsg against the reference gate decision; the three sends
+# _getMsg performs on its own under a failing socket
+REG.xchecks.append({'prop': 'C06', 'module': 'specs.getmsg', 'name': 'getmsg_gate', 'function': TRL + '_getMsg'})
+REG.xchecks.append({'prop': 'C17', 'module': 'specs.getmsg', 'name': 'getmsg_transport_failure', 'function': TRL + '_getMsg'})
+
+
+# ----------------------------------------------------------------------------------------------
+# 10. C06: "renegotiation attempts are refused and never start a second handshake" -- the entry gate of every
+#     handshake, TLSRecordLayer._handshakeStart
+
+def handshake_start_task():
+    ctx = Ctx()
+    box = {}
+
+    def setup(ex, st, fr):
+        entry_setup(ctx)(ex, st, fr)
+        me = st.env['self']
+        st.heap[(me.oid, 'closed')] = fresh_opaque('fld_closed')
+        box['closed0'] = st.heap[(me.oid, 'closed')]
+        box['hash0'] = st.heap[(me.oid, '_handshake_hash')]
+        box['client0'] = st.heap[(me.oid, '_client')]
+
+    def h_clear(ex, recv, args, kwargs, st, fr, node):
+        st.ghost['defrag_cleared'] = VBool(same(recv, val_of(ex, st, fr, 'self._defragmenter')))
+        return [Outcome('normal', st, VNone())]
+
+    spec = M2Spec(hooks={'HandshakeHashes': ctor_hook(ctx, 'HandshakeHashes'), 'clear_buffers': h_clear}, pure=PURE,
+                  props_as_fields=PROPS_AS_FIELDS)
+
+    def check(api):
+        ex, fr = api.ex, api.fr
+        ns, rs = api.normal_exits(), api.raise_exits()
+        api.oblige(api.entry, 'has-normal-and-refusing-exit', len(ns) >= 1 and len(rs) >= 1)
+        for k, o in enumerate(ns, 1):
+            st = o.st
+            oblige(ex, st, 'start#%d:only-on-a-closed-connection (no handshake is in progress or complete)' % k,
+                   truthy(box['closed0']), ctx)
+            oblige(ex, st, 'start#%d:transcript-starts-from-a-fresh-HandshakeHashes' % k,
+                   cls_name(ctx, val_of(ex, st, fr, 'self._handshake_hash')) == 'HandshakeHashes', ctx)
+            oblige(ex, st, 'start#%d:no-stale-message-fragments-survive' % k,
+                   truthy(st.ghost.get('defrag_cleared', FALSE())), ctx)
+            oblige(ex, st, 'start#%d:role-recorded' % k, same(val_of(ex, st, fr, 'self._client'), st.env.get('client')), ctx)
+        for k, o in enumerate(rs, 1):
+            st = o.st
+            oblige(ex, st, 'refuse#%d:raises-ValueError' % k, o.val.cls is ValueError, ctx)
+            oblige(ex, st, 'refuse#%d:only-when-the-connection-is-not-closed' % k, z3.Not(truthy(box['closed0'])), ctx)
+            oblige(ex, st, 'refuse#%d:running-connection-untouched (transcript, role, fragments)' % k,
+                   z3.And(same(val_of(ex, st, fr, 'self._handshake_hash'), box['hash0']),
+                          same(val_of(ex, st, fr, 'self._client'), box['client0']),
+                          z3.Not(truthy(st.ghost.get('defrag_cleared', FALSE())))), ctx)
+
+    return m2task('_handshakeStart/no-second-handshake', ('C06',), TRL + '_handshakeStart', spec, check=check, setup=setup,
+                  opts=OPTS,
+                  doc='a handshake can only start on a closed connection (ValueError otherwise, nothing touched); it '
+                      'starts from a fresh transcript and an empty defragmenter')
+
+
+handshake_start_task()
